@@ -161,3 +161,41 @@ for _n, _s in [('op_numlessthan', 'op_lessthan'), ('op_numgreaterthan', 'op_grea
     _op_contract(_n, getattr(sp, _s), pin_fn=getattr(_pins, _n), specname=_s)
 for _n in ['op_nop1', 'op_nop4', 'op_nop5', 'op_nop6', 'op_nop7', 'op_nop8', 'op_nop9', 'op_nop10']:
     _op_contract(_n, sp.op_nop, specname='op_nop')
+
+
+# --- lock-time opcodes ------------------------------------------------------------------------------------------------------
+
+def _cltv_contract():
+    def ensures(old_self, self, sequence, tx_locktime, result):
+        exp = sp.op_checklocktimeverify(list(old_self), tx_locktime, sequence)
+        if exp is None:
+            return result is False
+        return result is not False and list(self) == exp
+
+    def raises_cond(old_self, sequence, tx_locktime):
+        return sp.op_checklocktimeverify(list(old_self), tx_locktime, sequence) is None
+
+    d = {'params': {'self': _StackT, 'sequence': Int(0, 2 ** 32 - 1), 'tx_locktime': Int(0, 2 ** 32 - 1)}, 'ensures': ensures,
+         'raises': {Exception: raises_cond}, 'prepare': lambda self, sequence, tx_locktime: {'self': Stack(self)},
+         '__doc__': 'Stack.op_checklocktimeverify has the BIP65 effect for every stack, nLockTime and nSequence'}
+    return contract('bitcoinlib.scripts.Stack.op_checklocktimeverify', props=('C19',))(type('op_checklocktimeverify', (), d))
+
+
+def _csv_contract():
+    def ensures(old_self, self, sequence, version, result):
+        exp = sp.op_checksequenceverify(list(old_self), version, sequence)
+        if exp is None:
+            return result is False
+        return result is not False and list(self) == exp
+
+    def raises_cond(old_self, sequence, version):
+        return sp.op_checksequenceverify(list(old_self), version, sequence) is None
+
+    d = {'params': {'self': _StackT, 'sequence': Int(0, 2 ** 32 - 1), 'version': Int(0, 2 ** 31 - 1)}, 'ensures': ensures,
+         'raises': {Exception: raises_cond}, 'prepare': lambda self, sequence, version: {'self': Stack(self)},
+         '__doc__': 'Stack.op_checksequenceverify has the BIP112 effect'}
+    return contract('bitcoinlib.scripts.Stack.op_checksequenceverify', props=('C19',))(type('op_checksequenceverify', (), d))
+
+
+_cltv_contract()
+_csv_contract()
